@@ -289,6 +289,41 @@ pub fn big_alphabet() -> Vec<Snippet> {
     v
 }
 
+/// CSR alphabet: a CSR as a register (write / set / clear / read) and as a pointer to a save
+/// area (the interrupt-handler idiom): loads and stores of several widths through it.
+pub fn csr_alphabet() -> Vec<Snippet> {
+    const CSR: u32 = 64;
+    vec![
+        vec![inst(Inst::CsrI(CsrOp::Rw, ZERO, CSR, 1))],
+        vec![inst(Inst::CsrI(CsrOp::Rs, ZERO, CSR, 4))],
+        vec![inst(Inst::CsrI(CsrOp::Rc, ZERO, CSR, 1))],
+        vec![inst(Inst::Csr(CsrOp::Rw, ZERO, CSR, T1))],
+        vec![inst(Inst::Csr(CsrOp::Rs, ZERO, CSR, T1))],
+        vec![li(T1, 0x1ff)],
+        vec![inst(Inst::Csr(CsrOp::Rs, T0, CSR, ZERO))],
+        vec![sw(T1, 0, T0)],
+        vec![sw(ZERO, 0, T0)],
+        vec![lw(T2, 0, T0)],
+        vec![inst(Inst::Load(LOp::Lb, T2, T0, 0))],
+        vec![inst(Inst::Store(SOp::Sb, T1, T0, 1))],
+        vec![inst(Inst::La(T0, "D".into())), inst(Inst::Csr(CsrOp::Rw, ZERO, CSR, T0))],
+    ]
+}
+
+/// Extreme-stack alphabet: positions whose distance from the entry sp does not fit 32 bits.
+pub fn xstack_alphabet() -> Vec<Snippet> {
+    vec![
+        vec![li(T2, 0x7fff_fff8), r(ROp::Sub, SP, SP, T2)],
+        vec![sw(T0, -16, SP)],
+        vec![inst(Inst::Store(SOp::Sb, T1, SP, -16))],
+        vec![lw(T2, -16, SP)],
+        vec![call("g")],
+        vec![li(T0, 7)],
+        vec![addi(SP, SP, -16)],
+        vec![sw(T0, 0, SP)],
+    ]
+}
+
 /// Follow-up observers appended after the instruction under test so that the
 /// facts it produced are consulted by later transfers.
 fn observers() -> Snippet {
@@ -338,7 +373,7 @@ pub fn skeleton_fillers() -> Vec<Snippet> {
     ]
 }
 
-pub const N_SKELETONS: usize = 13;
+pub const N_SKELETONS: usize = 14;
 
 /// Build skeleton `k` with slots `s` (4 entries, indices into fillers).
 pub fn skeleton(k: usize, s: &[usize]) -> Program {
@@ -508,6 +543,22 @@ pub fn skeleton(k: usize, s: &[usize]) -> Program {
             b.push(br(BOp::Bne, A1, ZERO, "L1"));
             b.extend(sl(3));
         }
+        13 => {
+            // a branch back to the function's own label, with the stack pointer moved and a
+            // value in tp (a register of neither class) at the time of the branch
+            ctx = Context::Callee;
+            b.extend(sl(0));
+            b.push(addi(SP, SP, -8));
+            b.push(sw(S0, 0, SP));
+            b.push(li(4, 4));
+            b.extend(sl(1));
+            b.push(addi(A0, A0, -1));
+            b.push(br(BOp::Blt, ZERO, A0, "f"));
+            b.extend(sl(2));
+            b.push(lw(S0, 0, SP));
+            b.push(addi(SP, SP, 8));
+            b.extend(sl(3));
+        }
         _ => {
             // frame around a call inside a loop
             b.push(addi(SP, SP, -8));
@@ -547,6 +598,10 @@ pub struct KernelSpace {
     ctl_c: SeqSpace,
     skel_fill: u64,
     skel_slots: u32,
+    csr_a: Vec<Snippet>,
+    csr: SeqSpace,
+    xst_a: Vec<Snippet>,
+    xst: SeqSpace,
     pub parts: Vec<(&'static str, u64)>,
 }
 
@@ -605,6 +660,18 @@ impl KernelSpace {
             max: b.ctl_len,
         };
         let skel_fill = skeleton_fillers().len() as u64;
+        let csr_a = csr_alphabet();
+        let csr = SeqSpace {
+            a: csr_a.len() as u64,
+            min: 1,
+            max: b.seq_len + 1,
+        };
+        let xst_a = xstack_alphabet();
+        let xst = SeqSpace {
+            a: xst_a.len() as u64,
+            min: 1,
+            max: b.seq_len + 1,
+        };
         let parts = vec![
             ("single-main", pre.count() * big_a.len() as u64),
             ("single-callee", pre.count() * big_a.len() as u64),
@@ -616,6 +683,8 @@ impl KernelSpace {
                 "skeleton",
                 N_SKELETONS as u64 * skel_fill.pow(b.skel_slots),
             ),
+            ("csr", csr.count()),
+            ("extreme-stack", xst.count()),
         ];
         KernelSpace {
             seq_a,
@@ -629,6 +698,10 @@ impl KernelSpace {
             ctl_c,
             skel_fill,
             skel_slots: b.skel_slots,
+            csr_a,
+            csr,
+            xst_a,
+            xst,
             parts,
         }
     }
@@ -673,6 +746,8 @@ impl KernelSpace {
                     Self::cat(&self.ctl_callee, &self.ctl_c.decode(i)),
                     Context::Callee,
                 ),
+                7 => finish(Self::cat(&self.csr_a, &self.csr.decode(i)), Context::Main),
+                8 => finish(Self::cat(&self.xst_a, &self.xst.decode(i)), Context::Main),
                 _ => {
                     let k = (i % N_SKELETONS as u64) as usize;
                     let mut rest = i / N_SKELETONS as u64;
